@@ -17,7 +17,7 @@ for v in res["violations"]:
     w = v.get("text") or v.get("witness") or ""
     if len(w) < len(e[1].get("text") or e[1].get("witness") or ""): e[1]=v
 for k,(n,v,owners) in sorted(g.items(), key=lambda x:-x[1][0])[:int(os.environ.get("TOP","30"))]:
-    print(n, k, sorted(owners)[:8], '|', repr((v.get("text") or v.get("witness") or "")[-150:]), '|', str(v.get("observed"))[:150])
+    print(n, k, sorted(owners)[:8], '|', repr((v.get("text") or v.get("witness") or "")[-150:]), '|', repr(str(v.get("observed")))[:150])
 c = res["coverage"]
 print({k:c[k] for k in c if k in ("states","transitions","traces_validated_against_impl","distinct_nontrivial","impl_verdicts","reference_verdicts","caps_hit","per_operation")})
 print("signatures", len(g)); print("harness", res.get("harness_errors")[:5])
